@@ -181,6 +181,7 @@ def run(ctx, nbeh, nops=60, nfiles=16, client=0):
     ctx.mc_runs.append(dict(mode="trace-validation", module="CoCsdoTrace", client=client, traces=len(res), behaviours=nbeh, events=nev, determined_steps_compared=ndet))
     ctx.extra["recorded_trace_events"] = ctx.extra.get("recorded_trace_events", 0) + nev
     ctx.extra["recorded_steps_with_determined_reaction"] = ctx.extra.get("recorded_steps_with_determined_reaction", 0) + ndet
+    ctx.checkpoint()
     if nacc and ndet < nacc // 4:
         raise vlib.Infra("csdo trace validation is nearly vacuous: %d of %d events compared" % (ndet, nacc))
     return nev, ndet
